@@ -94,3 +94,10 @@ class SeqFeature:
         self.type = type
         self.id = id
         self.qualifiers = {} if qualifiers is None else qualifiers
+
+
+class RuleWithSuperiors:
+    """the one attribute of a DetectionRule that remove_redundant_protoclusters reads (used to build rule tables in sidecars)"""
+
+    def __init__(self, superiors):
+        self.superiors = superiors
